@@ -31,17 +31,17 @@ REVIEWED_NONDET = {
     ('execute_gasol', 'dtimer()'): "total time printed at the end",
 }
 REVIEWED_SETITER = {
+    # F23: two sites of this table were wrongly accepted at first ("a sum over the elements", "checked by the replay") although
+    # the summed function reads and updates a visited-map; they were real (hash-seed dependent bounds) and are repaired in /repo.
+    # A site is accepted only if its body is commutative for a stated structural reason, never because a replay did not object.
     ('SMSgreedy.target', 'for o in to_remove'): "body only pops keys of a dictionary: commutative",
     ('SMSgreedy.target', 'for w in needed_set'): "body increments per-element counters: commutative",
-    ('number_instr_needed', 'for prev_instr_id in set(dependent_instr_ids).difference(analyzed_instr_ids)'):
-        "accumulates a sum and a union over the elements: commutative (checked by the hash-seed replay)",
     ('update_with_tree_level', 'for prev_instr_id in set(dependent_instr_ids).difference(analyzed_instr_ids)'):
-        "takes a maximum over the elements: commutative (checked by the hash-seed replay)",
+        "update_current_index keeps a minimum and a maximum per id: commutative and idempotent",
     ('toposort_instr_dependencies', 'list(set((instr_id for instr_id in dependency_graph)).difference('):
-        "roots of the DFS: the resulting topological order is used only to evaluate per-node quantities that do not depend on the "
-        "order among independent nodes (checked by the hash-seed replay)",
+        "instruction_dependencies.py copy, used by hap_bef_rel only, which builds sets (membership)",
     ('bounds_from_instructions', 'list(set((instruction.id for instruction in instructions if instruction.instruction_subset == Instru'):
-        "list of ids used for membership only (checked by the hash-seed replay)",
+        "list of store ids handed to update_current_index (minimum / maximum per id): commutative",
 }
 
 
@@ -51,7 +51,7 @@ REVIEWED_NONDET_BUDGET = {
     ('sfs_generator.ir_block', 'dtimer'): 2, ('sfs_generator.ir_block', 'listdir'): 1, ('gasol_asm', 'dtimer'): 2,
 }
 REVIEWED_SETITER_BUDGET = {
-    'greedy.block_generation': 2, 'smt_encoding.instructions.instruction_bounds_with_dependencies': 3,
+    'greedy.block_generation': 2, 'smt_encoding.instructions.instruction_bounds_with_dependencies': 1,
     'smt_encoding.instructions.instruction_dependencies': 1, 'smt_encoding.json_with_dependencies': 1,
 }
 
@@ -108,6 +108,42 @@ class PurityScan(NativeCase):
                             "%d run-dependent call sites and %d ordered set consumptions, all reviewed" % (n_nd, n_si))
 
 
+ORDER_SENSITIVE = [
+    "DUP1 MLOAD SWAP2 PUSH 20 ADD MLOAD DUP3 SSTORE DUP2 PUSH 1 ADD SLOAD ADD SWAP1 PUSH 0 MSTORE PUSH 20 MSTORE PUSH 40 PUSH 0 KECCAK256 SLOAD "
+    "DUP2 MSTORE PUSH 7 PUSH 9 SSTORE",
+    "DUP1 MLOAD SWAP1 PUSH 20 ADD MLOAD DUP2 PUSH 0 MSTORE PUSH 20 MSTORE PUSH 40 PUSH 0 KECCAK256 SLOAD ADD PUSH 0 SSTORE",
+    "PUSH 0 MLOAD PUSH 20 MLOAD DUP2 DUP2 ADD PUSH 0 MSTORE MUL PUSH 20 MSTORE PUSH 40 PUSH 0 KECCAK256 PUSH 1 SSTORE",
+]
+
+
+def more_order_sensitive(n, seed=13):
+    """random blocks mixing loads, stores and hashes over few addresses, with re-used values"""
+    import random
+    rnd = random.Random(seed)
+    out = []
+    for _ in range(n):
+        toks = ["DUP1", "MLOAD", "DUP2", "PUSH 20", "ADD", "MLOAD"]
+        depth = 3
+        for _ in range(rnd.randint(6, 12)):
+            k = rnd.choice(['mstore', 'sstore', 'sload', 'mload', 'keccak', 'add', 'dup'])
+            if k == 'mstore' and depth >= 1:
+                toks += ["PUSH %x" % rnd.choice([0, 0x20, 0x40]), "MSTORE"]; depth -= 1
+            elif k == 'sstore' and depth >= 1:
+                toks += ["PUSH %x" % rnd.choice([0, 1, 9]), "SSTORE"]; depth -= 1
+            elif k == 'sload':
+                toks += ["PUSH %x" % rnd.choice([0, 1, 9]), "SLOAD"]; depth += 1
+            elif k == 'mload':
+                toks += ["PUSH %x" % rnd.choice([0, 0x20, 0x40]), "MLOAD"]; depth += 1
+            elif k == 'keccak':
+                toks += ["PUSH 40", "PUSH 0", "KECCAK256"]; depth += 1
+            elif k == 'add' and depth >= 2:
+                toks += ["ADD"]; depth -= 1
+            elif k == 'dup' and depth >= 1:
+                toks += ["DUP%d" % rnd.randint(1, min(depth, 3))]; depth += 1
+        out.append(" ".join(toks))
+    return out
+
+
 class HashSeedReplay(NativeCase):
     prop = 'C13'
     name = "hash-seed/process replay(bounded)"
@@ -129,6 +165,11 @@ class HashSeedReplay(NativeCase):
                  "CALLER ORIGIN ADDRESS CALLVALUE ADD ADD ADD DUP1 DUP1 MUL SWAP1 PUSH 0 MSTORE PUSH 20 MSTORE"]
         if tier == 'quick':
             pool = pool[::2]
+        # blocks whose instruction-dependency graph has operations reached both through an ordering constraint and as operands
+        # (found order-sensitive under the hash seed, finding F23); never thinned out
+        pool += ORDER_SENSITIVE
+        if tier != 'quick':
+            pool += more_order_sensitive(40)
         seeds = ['0', '1', '2', '3'] if tier == 'quick' else [str(i) for i in range(10)] + ['random']
         base = None
         for opts in (dict(), dict(storage=True)):
